@@ -16,6 +16,7 @@ from ..core import norm
 from ..flow import BaseState
 from ..flow import Domain
 from ..flow import Interp
+from ..model import ancestors
 from ..model import own_nodes
 
 
@@ -245,10 +246,35 @@ def rule_concat(model):
         rnames = info[fi.where]
         lists = info.get((fi.where, 'lists'), set())
         for n in own_nodes(fi.node):
+            if isinstance(n, ast.JoinedStr) and any(
+                    isinstance(v, ast.FormattedValue) and
+                    rendered_expr(v.value, fi, rnames) for v in n.values):
+                n_ops += 1
+                r.instance(fi.where, n, 'F-STRING OF A RENDERED PIECE')
+                r.finding(fi.where, n, 'a rendered piece is formatted '
+                          'into a string: a bytes piece shows up as its '
+                          'repr instead of being decoded with the template '
+                          'encoding', node=n, ctx=fi)
+            if isinstance(n, ast.Call) and isinstance(
+                    n.func, ast.Attribute) and n.func.attr == 'format' and \
+                    any(rendered_expr(a, fi, rnames) for a in
+                        list(n.args) + [k.value for k in n.keywords]):
+                n_ops += 1
+                r.instance(fi.where, n, 'str.format OF A RENDERED PIECE')
+                r.finding(fi.where, n, 'a rendered piece is formatted '
+                          'into a string: a bytes piece shows up as its '
+                          'repr instead of being decoded with the template '
+                          'encoding', node=n, ctx=fi)
             if isinstance(n, ast.BinOp) and isinstance(n.op, (ast.Add,
                                                                ast.Mod)):
-                if rendered_expr(n.left, fi, rnames) or \
-                        rendered_expr(n.right, fi, rnames):
+                operands = [n.left, n.right]
+                if isinstance(n.op, ast.Mod) and isinstance(
+                        n.right, (ast.Tuple, ast.List)):
+                    operands += list(n.right.elts)
+                if isinstance(n.op, ast.Mod) and isinstance(
+                        n.right, ast.Dict):
+                    operands += [v for v in n.right.values if v is not None]
+                if any(rendered_expr(o, fi, rnames) for o in operands):
                     # formatting a rendered piece into an engine literal is
                     # still a concatenation of pieces
                     n_ops += 1
@@ -306,6 +332,51 @@ def rule_decoders(model):
                           'mark or state, e.g. UTF-16, differ)', node=d,
                           ctx=fi)
             # decode must be guarded by isinstance(.., bytes)
+        # the encoding the caller gave is replaced only when none was given
+        if 'encoding' in fi.params():
+            for n in own_nodes(fi.node):
+                tg = []
+                if isinstance(n, ast.Assign):
+                    tg = n.targets
+                elif isinstance(n, (ast.AugAssign, ast.AnnAssign)):
+                    tg = [n.target]
+                elif isinstance(n, ast.NamedExpr):
+                    tg = [n.target]
+                elif isinstance(n, (ast.For, ast.comprehension)):
+                    tg = [n.target]
+                if not any(isinstance(x, ast.Name) and x.id == 'encoding'
+                           for t in tg for x in ast.walk(t)):
+                    continue
+                ok = False
+                v = getattr(n, 'value', None)
+                if isinstance(v, ast.BoolOp) and isinstance(v.op, ast.Or) \
+                        and norm(v.values[0]) == 'encoding':
+                    ok = True
+                if isinstance(v, ast.IfExp) and (
+                        (norm(v.test) in ('encoding is None',
+                                          'not encoding')
+                         and True) or
+                        (norm(v.test) in ('encoding is not None',
+                                          'encoding')
+                         and norm(v.body) == 'encoding')):
+                    ok = True
+                node = n
+                for anc in ancestors(n):
+                    if isinstance(anc, ast.If) and node in anc.body and \
+                            norm(anc.test) in ('encoding is None',
+                                               'not encoding'):
+                        ok = True
+                    if isinstance(anc, (ast.FunctionDef, ast.Lambda)):
+                        break
+                    node = anc
+                r.instance(fi.where, n, 'default for a missing encoding'
+                           if ok else 'REPLACES the given encoding')
+                if not ok:
+                    r.finding(fi.where, n, f'{name} replaces the encoding '
+                              'it was given although one was given: bytes '
+                              'decoded afterwards (later pieces of the same '
+                              'join) are decoded with a different encoding '
+                              'than the template\'s', node=n, ctx=fi)
     # join_unicode: only bytes elements are decoded, order kept
     ju = model.func('_DocumentTemplate', 'join_unicode')
     src = ast.unparse(ju.node)
